@@ -1,6 +1,8 @@
 import AllfedModel.Model.AllocLP
 import AllfedModel.Model.Certificate
 import AllfedModel.Proofs.Completion
+import AllfedModel.Model.AllocSpec
+import AllfedModel.Proofs.Round2
 /-!
 # C16 — every country completes under every documented preset
 
@@ -12,7 +14,7 @@ With seaweed the statement is false in general (biomass that may neither be harv
 human intake cap nor exceed the density ceiling), which is why it is excluded here.
 -/
 namespace Allfed.C16
-open Allfed.LP Allfed.AllocLP Allfed.Certificate
+open Allfed.LP Allfed.AllocLP Allfed.Certificate Allfed.AllocSpec
 
 variable {K : Type} [Field K] [LinearOrder K] [IsStrictOrderedRing K]
 
@@ -47,5 +49,46 @@ theorem objective_bounded (i : Inp K) (h : ZeroChargeInput i) (x : Var → K) (h
       (i.storedInitial + at' i.cropProd 0 + at' i.milk 0 + (if i.storeBetweenYears then i.meatSummed else at' i.slaughtered 0)
         + at' i.cs 0 + at' i.scp 0 + at' i.greenhouse 0 + at' i.fish 0) / i.billionKcalsNeeded * 100 :=
   Proofs.Completion.objective_bounded i h.months h.noSeaweed h.wf h.need h.supplies x hx
+
+/-! ## the feed-maximising round after a human-maximising round
+
+Round 2 pins what people eat of every food to the result of round 1.  For seaweed an *upper* pin
+can make the LP infeasible: seaweed that has grown must be harvested (equality ledger, density
+ceiling, no disposal) and the feed/biofuel share caps may absorb nothing.  Since the repair the row
+`Seaweed_Max_Requirement` is no longer added (`buildLP` pins seaweed from below only;
+`buildLPBeforeSeaweedFix` is the former programme). -/
+
+/-- before the fix: a well-formed two-month instance (1 t of seaweed on 1 km² at the density
+    ceiling, doubling in month 1, no feed or biofuel allowed), a feasible point of its
+    human-maximising round, minimum consumption between 0 and what that point ate — every
+    hypothesis of `round2_feasible_of_round1` — for which the former feed-maximising LP has NO
+    feasible point, while today's has one -/
+theorem round2_seaweed_pin_infeasible_before_fix :
+    ∃ (i : Inp ℚ) (x₁ : Var → ℚ), WellFormed i ∧
+      (anyFeedVar i = true → ∀ m, m < i.nmonths → 0 ≤ at' i.maxFeed m ∧ 0 ≤ at' i.maxBiofuel m) ∧
+      Feasible (buildLP i .toHumans) x₁ ∧ PinsWithin i x₁ ∧
+      (∀ x, ¬ Feasible (buildLPBeforeSeaweedFix i .toAnimals) x) ∧
+      ∃ x, Feasible (buildLP i .toAnimals) x :=
+  Proofs.Round2.round2_seaweed_pin_infeasible_before_fix
+
+/-- today's formulation: if `x₁` is feasible for the human-maximising LP (any charge) and the
+    minimum-consumption series lie between 0 and what `x₁` gives people of each of the six pinned
+    foods (`PinsWithin`: months of the horizon, resources that are on, seaweed in kcals), the inputs
+    are well-formed and the feed and biofuel ceilings are non-negative, then the feed-maximising LP
+    has a feasible point (people get exactly the minimum of every food but seaweed, the seaweed
+    farm runs as in `x₁` with the whole harvest going to people, nothing is fed or burnt; the stock
+    variables follow from their ledgers) -/
+theorem round2_feasible_of_round1 (i : Inp K) (x₁ : Var → K) (hw : WellFormed i)
+    (hceil : anyFeedVar i = true → ∀ m, m < i.nmonths → 0 ≤ at' i.maxFeed m ∧ 0 ≤ at' i.maxBiofuel m)
+    (h₁ : Feasible (buildLP i .toHumans) x₁) (hp : PinsWithin i x₁) :
+    ∃ x, Feasible (buildLP i .toAnimals) x :=
+  Proofs.Round2.round2_feasible_of_round1 i x₁ hw hceil h₁ hp
+
+/-- non-vacuity: the instance of the counter-example satisfies every hypothesis -/
+example : ∃ (i : Inp ℚ) (x₁ : Var → ℚ), WellFormed i ∧
+    (anyFeedVar i = true → ∀ m, m < i.nmonths → 0 ≤ at' i.maxFeed m ∧ 0 ≤ at' i.maxBiofuel m) ∧
+    Feasible (buildLP i .toHumans) x₁ ∧ PinsWithin i x₁ ∧ i.addSeaweed = true :=
+  ⟨Proofs.Round2.swInst, Proofs.Round2.swX, Proofs.Round2.swInst_wellFormed,
+    Proofs.Round2.swInst_ceilings, Proofs.Round2.swX_feasible, Proofs.Round2.swInst_pins, rfl⟩
 
 end Allfed.C16
